@@ -92,6 +92,28 @@ Theorem C20_shared_entry_refuted :
     alone name gen compile behave invs fs0 0 = Some ("envA/m", 0%Z).
 Proof. exact shared_entry_refuted_ex. Qed.
 
+(* ---- every command: run, -compile, -clean, -init (the general system [grun] of Model/Procs.v) ---- *)
+
+(* restricted to plain runs (`mage [-f] [-l|-h] words`) the general system IS the system of the theorems above *)
+Theorem C20_general_restricts : forall name gen compile behave invs fs0 sched,
+  grun name gen compile behave (map as_run invs) fs0 sched = run name gen compile behave invs fs0 sched.
+Proof. exact grun_as_run. Qed.
+
+(* nobody blocks anybody, whatever the commands *)
+Theorem C20_general_no_blocking : forall name gen compile behave ginvs fs0 sched i,
+  i < length ginvs -> fuel <= count_occ Nat.eq_dec sched i ->
+  exists r, result_of (grun name gen compile behave ginvs fs0 sched) i = Some r.
+Proof. exact gno_blocking. Qed.
+
+(* the non-interference theorems do NOT extend to `mage -clean`: started in another directory with the same cache
+   it empties the cache between a run's build and its exec, and the run fails (known finding C20-clean-during-run) *)
+Theorem C20_clean_refuted :
+  exists name gen compile behave ginvs fs0 sched,
+    NoDup (map (fun g => i_dir (g_inv g)) ginvs) /\
+    result_of (grun name gen compile behave ginvs fs0 sched) 0 = Some fail /\
+    galone name gen compile behave ginvs fs0 0 = Some ("env/m", 0%Z).
+Proof. exact clean_refuted_ex. Qed.
+
 Print Assumptions C20_distinct_dirs.
 Print Assumptions C20_distinct_dirs_total.
 Print Assumptions C20_no_blocking.
@@ -102,6 +124,9 @@ Print Assumptions C20_same_dir_content_addressed.
 Print Assumptions C20_same_dir_refuted.
 Print Assumptions C20_same_dir_refuted_truncate.
 Print Assumptions C20_shared_entry_refuted.
+Print Assumptions C20_general_restricts.
+Print Assumptions C20_general_no_blocking.
+Print Assumptions C20_clean_refuted.
 
 (* non-vacuity: three invocations in three directories, two with identical magefiles (one shared
    cache entry), one of them in hash mode, interleaved round-robin: the hypotheses of
@@ -116,3 +141,12 @@ Example C20_nonvacuous :
     [Some ("env/m", 0%Z); Some ("env/m", 0%Z); Some ("env/k", 0%Z)].
 Proof. exact nonvacuous_c20. Qed.
 Print Assumptions C20_nonvacuous.
+
+(* `mage -compile` in a twin directory (identical magefiles) next to a run never touches the cache: both get their solo
+   results (executable part of the general model; -compile and -init are tied to the code by the correspondence only) *)
+Example C20_compile_example :
+  map (result_of (grun w_name w_gen w_compile w_behave w_compile_ginvs w_same_fs (flat_map (fun _ => [0; 1]) (seq 0 12)))) [0; 1] =
+    [Some ("env/m", 0%Z); Some ("", 0%Z)] /\
+  map (galone w_name w_gen w_compile w_behave w_compile_ginvs w_same_fs) [0; 1] = [Some ("env/m", 0%Z); Some ("", 0%Z)].
+Proof. exact compile_example. Qed.
+Print Assumptions C20_compile_example.
